@@ -82,7 +82,7 @@ Print Assumptions C04_sdes_count_exceeds_any_length.
 (* BEGIN source-translation (generated by tools/mksourceprops.py; do not edit by hand) *)
 (* Unmarshal of each type, as translated from the Go source text on this run, is the model function the theorems above are about (zero-valued receiver; the _gen/_any forms say what a receiver that already holds data contributes).
    Gen/Funcs.v (module GoSrc) is written by srcgen/trans.go from /repo on every run; Lib/GoSem.v gives the meaning of its primitives. *)
-From RTCP Require Import Lib.Base Lib.GoSem Gen.Consts Gen.Funcs Model.Header Model.Reports Model.Sdes Model.ByeApp Model.Feedback Model.Twcc Model.Ccfb Model.Packet Proofs.SourceEquiv Proofs.SrcConv Proofs.SourceByeApp Proofs.SourceCcfb Proofs.SourceCompound Proofs.SourceCompoundClosed Proofs.SourceFeedback1 Proofs.SourceFeedback2 Proofs.SourcePacket Proofs.SourceRR Proofs.SourceSR Proofs.SourceSdes Proofs.SourceTwccDec Proofs.SourceTwccEnc.
+From RTCP Require Import Lib.Base Lib.GoSem Gen.Consts Gen.Funcs Model.Header Model.Reports Model.Sdes Model.ByeApp Model.Feedback Model.Twcc Model.Ccfb Model.Packet Proofs.SourceEquiv Proofs.SrcConv Proofs.SourceByeApp Proofs.SourceCcfb Proofs.SourceFeedback1 Proofs.SourceFeedback2 Proofs.SourceRR Proofs.SourceSR Proofs.SourceSdes Proofs.SourceTwccDec.
 Module C04_SourceByeApp.
 Import Proofs.SourceByeApp.
 Local Open Scope Z_scope.
